@@ -202,6 +202,11 @@ class PandasMissingValueFeatureGroup(MissingValueFeatureGroup):
                 if mode_value is not None:
                     # Apply the mode to missing values in this group
                     result.loc[group_indices] = result.loc[group_indices].fillna(mode_value)
+            # Groups without any non-missing value: fall back to the overall mode (as mean/median do)
+            if result.isna().any():
+                overall_mode = cls._first_mode(data[in_features])
+                if overall_mode is not None:
+                    result = result.fillna(overall_mode)
             return result
         elif imputation_method == "ffill":
             # Forward fill within groups
